@@ -6,7 +6,8 @@
        mode "pair"    a, b \in U06                     order / relation laws
        mode "mimic"   a, b \in UMimic                  the same laws where labels contain <len><label> of other names
        mode "triple"  a, b, c \in V06                  transitivity
-       mode "neigh"   <<a, b>> \in NeighbourCases, p   successor / predecessor at 63 / 253..255
+       mode "neigh"   <<a, b>> \in NeighbourBase, p    successor / predecessor at 63 / 253..255
+       mode "neigh2"  <<a, b>> \in MixedCases, p       the same where the stepped octet is followed by a 0xFF / 0x00 run
        mode "cons"    a \in ConstructInputs, b too     Construct / Concat / Split / Parent at the limits
        mode "zone"    (tiny limits) a, b in ONE zone   minimality of Succ, maximality of Pred *)
 EXTENDS NameUniverse, TLC
@@ -26,26 +27,28 @@ ZoneNames == {n \in {ZOrigin} \cup {<<x>> \o ZOrigin : x \in UpTo(ZAlpha, MaxLab
 FirstArgs(m) == CASE m = "pair" -> UPair
                   [] m = "mimic" -> UMimic
                   [] m = "triple" -> V06
-                  [] m = "neigh" -> {cs[1] : cs \in NeighbourCases}
+                  [] m = "neigh" -> {cs[1] : cs \in NeighbourBase}
+                  [] m = "neigh2" -> {cs[1] : cs \in MixedCases}
                   [] m = "cons" -> ConstructInputs
                   [] m = "zone" -> ZoneNames
 SecondArgs(m, x) == CASE m = "pair" -> UPair
                       [] m = "mimic" -> UMimic
                       [] m = "triple" -> V06
-                      [] m = "neigh" -> {cs[2] : cs \in {d \in NeighbourCases : d[1] = x}}
+                      [] m = "neigh" -> {cs[2] : cs \in {d \in NeighbourBase : d[1] = x}}
+                      [] m = "neigh2" -> {cs[2] : cs \in {d \in MixedCases : d[1] = x}}
                       [] m = "cons" -> ConstructInputs
                       [] m = "zone" -> {ZOrigin}
 
 Init == /\ mode \in Modes /\ stage = 1 /\ a \in FirstArgs(mode)
         /\ b = <<>> /\ c = <<>> /\ p = FALSE
-Next == \/ /\ stage = 1 /\ b' \in SecondArgs(mode, a) /\ p' \in (IF mode \in {"neigh", "zone"} THEN BOOLEAN ELSE {FALSE})
+Next == \/ /\ stage = 1 /\ b' \in SecondArgs(mode, a) /\ p' \in (IF mode \in {"neigh", "neigh2", "zone"} THEN BOOLEAN ELSE {FALSE})
            /\ stage' = 2 /\ UNCHANGED <<mode, a, c>>
         \/ /\ stage = 2 /\ mode = "triple" /\ c' \in V06 /\ stage' = 3 /\ UNCHANGED <<mode, a, b, p>>
 Spec == Init /\ [][Next]_vars
 
 Pair == mode \in {"pair", "mimic"} /\ stage = 2
 Triple == mode = "triple" /\ stage = 3
-Neigh == mode = "neigh" /\ stage = 2
+Neigh == mode \in {"neigh", "neigh2"} /\ stage = 2
 Cons == mode = "cons" /\ stage = 2
 Zone == mode = "zone" /\ stage = 2
 
